@@ -1,6 +1,6 @@
 SPECIFICATION Spec
 CONSTANTS
-  NW = 3
+  NW = 2
   Family = "c12-quick"
   PeerCounts = {1, 2}
   MaxChanges = 2
